@@ -54,7 +54,7 @@ def ver11Compat (v : Int) : Bool := v == Http.ver11 || v == Http.ver12_19
 /-- the `Host` rule of `parse_connection_headers` -/
 def hostMissing (lvl : Int) (x : Head) : Bool :=
   Discipline.pch_host_required lvl && ver11Compat x.t.httpVer &&
-    (lookupElem x.h.buf x.ck.elems Http.kindHeader Http.hdrHost).isNone
+    (lookupElem x.h.buf x.ck.elems Http.kindHeader Http.hdrHostBytes).isNone
 
 inductive HeadRes where
   | more
